@@ -266,6 +266,7 @@ EXT_CONST = {
     "http.HTTPStatus.TEMPORARY_REDIRECT": 307, "http.HTTPStatus.PERMANENT_REDIRECT": 308,
     "http.HTTPStatus.OK": 200, "http.HTTPStatus.NOT_MODIFIED": 304, "http.HTTPStatus.MULTIPLE_CHOICES": 300,
     "http.HTTPStatus.USE_PROXY": 305,
+    "sys.byteorder": __import__("sys").byteorder,  # build platform
 }
 # stdlib constants that are kept symbolic but known pairwise distinct
 EXT_KEEP_SYMBOLIC = {"ssl.CERT_NONE", "ssl.CERT_OPTIONAL", "ssl.CERT_REQUIRED"}
